@@ -17,6 +17,8 @@ import (
 )
 
 const (
+	c20KWalk    = 8
+	c20RegWalk  = -5
 	c20KMark    = 7
 	c20RegMark  = -4
 	c20MarkData = 1
@@ -59,6 +61,16 @@ type c20Case struct {
 	Oracle   []string    `json:"oracle"`    // C20 oracle failures
 	Oracle10 []string    `json:"oracle10"`  // C10 oracle failures (close semantics)
 	Feat     []string    `json:"feat"`
+}
+
+// c20Walk is called (from the instrumented copy of stream.go, see props/C20.py) at the head of every iteration
+// of a loop over the elements of pendingData.unread: a scheduling point in front of each element access.
+func c20Walk(i int) {
+	if !vs.active || vs.cur == nil {
+		return
+	}
+	vsPre()
+	vs.log = append(vs.log, vsEvent{vs.cur.id, c20KWalk, c20RegWalk, 0, int64(i), 0, 0})
 }
 
 func c20Mark(code int64) {
@@ -303,16 +315,18 @@ func c20Run(env *c20Env, c c20Case, mk func() vsChooser, maxSteps int) c20Case {
 				if s.getCallbacks() != nil {
 					return // callbacks installed: the user no longer reads synchronously
 				}
+				// (no lock here: the pendingData mutex is cooperative under the scheduler, and exactly one controlled
+				// thread runs at a time)
 				avail := s.recvBuf.Len()
-				s.pendingData.Lock()
 				for _, w := range s.pendingData.unread {
 					if sl, err := env.client.bufferManager.readBufferSlice(w.offset); err == nil {
 						avail += sl.size()
 					}
 				}
-				s.pendingData.Unlock()
 				if avail == 0 {
-					continue // a real read would block: the model moves and consumes nothing
+					// a real read would block: do only what readMore does first (the model moves and consumes nothing)
+					s.pendingData.moveTo(s.recvBuf)
+					continue
 				}
 				if k == 0 {
 					_, _ = s.BufferReader().Peek(1)
